@@ -57,7 +57,7 @@ package dagprocessor
 //@   ghost gOrigRelErr = err
 //@ func New$1
 //@   requires e != nil && f != nil && f.eventsSemaphore != nil && e.Size() >= 0
-//@   modifies f.eventsSemaphore.processing, warnings, nOrigRel, gOrigRelEv, gOrigRelErr
+//@   modifies f.eventsSemaphore.processing, warnings, nOrigRel, gOrigRelEv, gOrigRelErr, gBroadcastN, gBroadcastRecv
 //@   ensures  [normal] !old(f.eventsSemaphore.processing.Num < 1 || f.eventsSemaphore.processing.Size < e.Size()) ==> f.eventsSemaphore.processing.Num == old(f.eventsSemaphore.processing.Num) - 1 && f.eventsSemaphore.processing.Size == old(f.eventsSemaphore.processing.Size) - e.Size() && warnings == old(warnings)
 //@   ensures  [over] old(f.eventsSemaphore.processing.Num < 1 || f.eventsSemaphore.processing.Size < e.Size()) ==> f.eventsSemaphore.processing.Num == 0 && f.eventsSemaphore.processing.Size == 0
 //@   ensures  [forward] released != nil ==> nOrigRel == old(nOrigRel) + 1 && gOrigRelEv == e && gOrigRelErr == err
